@@ -141,6 +141,11 @@ func validateValue(option *Option, value interface{}) (*valueCache, *ValidationE
 				}
 			}
 		}
+		if v == nil {
+			// A nil slice is an empty list. Store it as such, as it would
+			// otherwise be saved as JSON null, which cannot be loaded again.
+			v = []string{}
+		}
 		validated = &valueCache{stringArrayVal: v}
 	case int, int8, int16, int32, int64, uint, uint8, uint16, uint32, float32, float64:
 		// uint64 is omitted, as it does not fit in a int64
